@@ -397,6 +397,18 @@ namespace sim
 static void apply_node_faults(Task* t, const engine::Position* pos);
 }
 
+#if !defined(VERIF_TSAN)
+// With pthread_create intercepted (below) every thread an engine task creates becomes a simulated task, hooked or not.
+// The hooks only tell which creation is "the search thread of the go being handled".
+extern "C" void verif_spawn(void)
+{
+    using namespace sim;
+    if (!W || !tl_task) return;
+    W->spawn_hint = true;
+}
+extern "C" void verif_thread_begin(void) {}
+extern "C" void verif_thread_end(void) {}
+#else
 extern "C" void verif_spawn(void)
 {
     using namespace sim;
@@ -446,6 +458,7 @@ extern "C" void verif_thread_end(void)
     W->on_task_done(t);
     hand_to_driver();
 }
+#endif
 
 extern "C" void verif_point(int id, const void* a, const void* b)
 {
@@ -531,6 +544,7 @@ extern "C" void verif_point(int id, const void* a, const void* b)
 extern "C"
 {
     int __interceptor_pthread_join(pthread_t, void**) __attribute__((weak));
+    int __interceptor_pthread_create(pthread_t*, const pthread_attr_t*, void* (*)(void*), void*) __attribute__((weak));
 }
 namespace sim
 {
@@ -562,6 +576,7 @@ static int (*real_cond_wait)(pthread_cond_t*, pthread_mutex_t*) = nullptr;
 static int (*real_cond_timedwait)(pthread_cond_t*, pthread_mutex_t*, const struct timespec*) = nullptr;
 static int (*real_cond_clockwait)(pthread_cond_t*, pthread_mutex_t*, clockid_t, const struct timespec*) = nullptr;
 static int (*real_join)(pthread_t, void**) = nullptr;
+static int (*real_create)(pthread_t*, const pthread_attr_t*, void* (*)(void*), void*) = nullptr;
 static int (*real_nanosleep)(const struct timespec*, struct timespec*) = nullptr;
 static int (*real_clock_nanosleep)(clockid_t, int, const struct timespec*, struct timespec*) = nullptr;
 void resolve_real_sync()
@@ -572,6 +587,8 @@ void resolve_real_sync()
     real_cond_timedwait = (int (*)(pthread_cond_t*, pthread_mutex_t*, const struct timespec*))dlsym(RTLD_NEXT, "pthread_cond_timedwait");
     real_cond_clockwait = (int (*)(pthread_cond_t*, pthread_mutex_t*, clockid_t, const struct timespec*))dlsym(RTLD_NEXT, "pthread_cond_clockwait");
     real_join = __interceptor_pthread_join ? __interceptor_pthread_join : (int (*)(pthread_t, void**))dlsym(RTLD_NEXT, "pthread_join");
+    real_create = __interceptor_pthread_create ? __interceptor_pthread_create
+                                               : (int (*)(pthread_t*, const pthread_attr_t*, void* (*)(void*), void*))dlsym(RTLD_NEXT, "pthread_create");
     real_nanosleep = (int (*)(const struct timespec*, struct timespec*))dlsym(RTLD_NEXT, "nanosleep");
     real_clock_nanosleep = (int (*)(clockid_t, int, const struct timespec*, struct timespec*))dlsym(RTLD_NEXT, "clock_nanosleep");
 }
@@ -632,8 +649,82 @@ static void sim_sleep(Task* t, int64_t ns)
 }
 }  // namespace sim
 
+namespace sim
+{
+struct Trampoline
+{
+    void* (*fn)(void*);
+    void* arg;
+    Task* task;
+    World* world;
+};
+static void* thread_trampoline(void* p)
+{
+    Trampoline tr = *static_cast<Trampoline*>(p);
+    std::free(p);
+    Task* t = tr.task;
+    tl_task = t;
+    task_wait_go(t);
+    t->arrived = true;
+    t->state = ST_RUNNING;
+    t->pthread_id = (unsigned long)pthread_self();
+    t->point_count[PT_THREAD_BEGIN & 31]++;
+    void* ret = tr.fn(tr.arg);
+    tl_task = nullptr;
+    if (W == tr.world)
+    {
+        t->state = ST_DONE;
+        t->last_point = PT_THREAD_END;
+        trace_event(uint64_t(t->id) << 8 | PT_THREAD_END, uint64_t(t->nodes), ST_DONE);
+        W->on_task_done(t);
+        hand_to_driver();
+    }
+    return ret;
+}
+}  // namespace sim
+
 extern "C"
 {
+    int pthread_create(pthread_t* th, const pthread_attr_t* attr, void* (*fn)(void*), void* arg)
+    {
+        using namespace sim;
+        if (!real_create) resolve_real_sync();
+        Task* caller = sim_task();
+        if (!caller) return real_create(th, attr, fn, arg);
+        int idx = W->spawned;
+        if (idx >= MAX_TASKS - 1)
+        {
+            W->infra("too many tasks");
+            return real_create(th, attr, fn, arg);
+        }
+        Task* t = &W->tasks[idx];
+        *t = Task();
+        t->id = idx;
+        t->kind = W->spawn_hint ? TK_SEARCH : TK_HELPER;
+        t->state = ST_READY;
+        t->go = 0;
+        if (W->spawn_hint) W->on_spawn(t);
+        else W->counters["helper_threads"]++;
+        W->spawn_hint = false;
+        Trampoline* tr = static_cast<Trampoline*>(std::malloc(sizeof(Trampoline)));
+        tr->fn = fn;
+        tr->arg = arg;
+        tr->task = t;
+        tr->world = W;
+        int rc = real_create(th, attr, thread_trampoline, tr);
+        if (rc != 0)
+        {
+            std::free(tr);
+            t->state = ST_DONE;
+            return rc;
+        }
+        t->pthread_id = (unsigned long)*th;
+        __atomic_store_n(&W->spawned, idx + 1, __ATOMIC_RELEASE);
+        // the new thread may well run before its creator continues: always let the scheduler decide
+        caller->point_count[PT_SPAWN & 31]++;
+        task_yield(caller, ST_READY, PT_SPAWN);
+        return 0;
+    }
     int pthread_mutex_lock(pthread_mutex_t* m)
     {
         sim::Task* t = sim::sim_task();
@@ -681,11 +772,7 @@ extern "C"
         {
             int target = -1;
             for (int i = 0; i < sim::W->spawned; ++i)
-                if (sim::W->tasks[i].pthread_id == (unsigned long)th && sim::W->tasks[i].arrived) target = i;
-            // a thread that has not arrived yet cannot be identified by its id: wait for any not-yet-arrived task too
-            if (target < 0)
-                for (int i = 0; i < sim::W->spawned; ++i)
-                    if (!sim::W->tasks[i].arrived && sim::W->tasks[i].state != sim::ST_DONE) target = i;
+                if (sim::W->tasks[i].pthread_id == (unsigned long)th) target = i;
             if (target >= 0 && sim::W->tasks[target].state != sim::ST_DONE)
             {
                 t->join_target = target;
@@ -1936,6 +2023,15 @@ RunResult run_world(const Script& script)
             {
                 if (g.stop_processed)
                 {
+                    // promptness in simulated time as well: a search that sits in a sleep / wait / join after the stop
+                    // visits no nodes; a minute of simulated time (or the node bound's worth, whichever is larger) is not "short"
+                    int64_t tb = std::max<int64_t>(60000000000LL, B_DRAIN * world.cfg.node_cost_ns);
+                    if (world.clock_ns - g.clock_at_stop > tb && st->nodes - g.nodes_at_stop <= B_DRAIN)
+                    {
+                        world.violation("C06", "no-bestmove-after-stop", "'" + g.line + "' stop consumed in window " + g.stop_window + ", " + std::to_string((world.clock_ns - g.clock_at_stop) / 1000000) +
+                                                                             " ms of simulated time later still no bestmove (the search thread is not even searching)");
+                        st->force_stop = true;
+                    }
                     if (st->nodes - g.nodes_at_stop > B_DRAIN)
                     {
                         world.violation("C06", "no-bestmove-after-stop",
@@ -2041,6 +2137,9 @@ RunResult run_world(const Script& script)
                 any = true;
                 if (t.kind == TK_SEARCH) t.force_stop = true;
                 if (t.state == ST_WAIT_LOCK && world.io_owner >= 0) continue;
+                if (t.state == ST_SLEEP || (t.state == ST_WAIT_COND && t.wake_ns >= 0))
+                    world.clock_ns = std::max(world.clock_ns, t.wake_ns);
+                if (!world.eligible(t) && t.state != ST_WAIT_INPUT) continue;
                 if (!drive(&t, 100000)) { hang = true; break; }
             }
             if (!any || hang) break;
